@@ -71,7 +71,7 @@ RULE = (f"fault enumeration: runs 0..{NENUM - 1} enumerate every stall point - a
 PROBES = ["stall_in_handshake", "stall_in_request_line", "stall_in_titan_content",
           "complete_request_no_timeout", "late_data_at_boundary", "slow_handler_5T",
           "slow_middleware", "dribble", "stall_after_large_declared_size",
-          "request_as_several_records_in_one_flight", "disconnect_near_deadline", "timeout_40_observed", "via_start_server"]
+          "request_as_several_records_in_one_flight", "damaged_stream_then_silence", "disconnect_near_deadline", "timeout_40_observed", "via_start_server"]
 COMPONENTS = {
     "real": ["nauyaca.server.protocol (request timer)", "nauyaca.server.tls_protocol (handshake "
              "phase)", "asyncio sslproto handshake/shutdown timers", "OpenSSL"],
@@ -128,7 +128,7 @@ def run_one(ch):
         mode = sw.MODES[ch.choose("mode", 3)]
         s = ch.choose("shape", 4)
         name, stream = SHAPES[s]
-        r = ch.choose("scen", 8, [4, 3, 2, 2, 2, 2, 2, 2])
+        r = ch.choose("scen", 9, [4, 3, 2, 2, 2, 2, 2, 2, 2])
         sc["sent"] = stream
         if r == 0:      # late data around the deadline
             k = ch.choose("latek", len(stream))
@@ -174,6 +174,21 @@ def run_one(ch):
             sc["sent"] = stream
             sc["big_declared"] = True
             sc["case"] = f"big-declared-stall/{size}/have={have}"
+        elif r == 8 and mode != "plain":
+            # a damaged stream, then silence: one byte inverted in transit somewhere in the
+            # client's handshake flights or its first application record - or a client
+            # that talks plaintext to the TLS port
+            sc["script"] = [("send", stream), ("stall",)]
+            if ch.chance("corrupt_later_flight", 0.5):
+                # the request travels in a later flight than the client's Finished
+                sc["script"] = [("sleep", 0.05)] + sc["script"]
+            if ch.chance("plaintext_to_tls", 0.25):
+                sc["no_tls"] = True
+                sc["corrupt"] = -1
+                sc["case"] = f"plaintext-to-tls-port/{name}"
+            else:
+                sc["corrupt"] = ch.choose("corruptk", 700 + len(stream))
+                sc["case"] = f"corrupted-byte/{name}/k={sc['corrupt']}"
         elif r == 7:    # the complete request as several TLS records that reach the server together
             cuts = sorted({1 + ch.choose("rcut", len(stream) - 1) for _ in range(1 + ch.choose("rn", 3))})
             if ch.chance("rcrlf", 0.5):
@@ -247,6 +262,8 @@ def run_one(ch):
         ep = raw_connect(net, HOST, 1965, c2s=WholePolicy(0.001), s2c=WholePolicy(0.001), tag="k0")
         if sc["stall_cipher"] is not None:
             ep.tx.stall_at = sc["stall_cipher"]
+        if sc.get("corrupt") is not None and sc["corrupt"] >= 0:
+            ep.tx.corrupt_at = sc["corrupt"]
         # translate "sleep_until_rel" (relative to session establishment) lazily
         script = []
         for a in sc["script"]:
@@ -254,7 +271,8 @@ def run_one(ch):
                 script.append(("call", lambda p, rel=a[1]: _sleep_until(p, rel)))
             else:
                 script.append(a)
-        peer = RawPeer(net, ep, script, tls_ctx=sw.peer_tls_ctx(mode), polite_close=False,
+        peer = RawPeer(net, ep, script, tls_ctx=None if sc.get("no_tls") else sw.peer_tls_ctx(mode),
+                       polite_close=False,
                        coalesce_first=bool(sc.get("coalesce_first")), name="cli")
         out["peer"] = peer
         out["t0"] = t0
@@ -314,7 +332,25 @@ def run_one(ch):
     site = mode
     late = sc.get("late")
     disc = sc.get("disconnect")
-    if disc is None:
+    if sc.get("corrupt") is not None:
+        res.stats["damaged_stream_then_silence"] += 1
+        damaged = sc.get("no_tls") or peer.ep.tx.sent > sc["corrupt"]
+        in_hs = sc.get("no_tls") or peer.t_hs_done is None or sc["corrupt"] < (peer.hs_bytes_out or 0)
+        ctx["damaged_in_handshake"] = bool(in_hs)
+        if not damaged:
+            pass       # the stream was shorter than the drawn offset: an ordinary complete request
+        else:
+            limit = (t0 + T_HANDSHAKE + EPS) if in_hs else ((t_session or t0) + T + EPS)
+            if t_close is None or t_close > limit:
+                res.violate(f"C15/damaged-stream-not-closed/{site}",
+                            f"the client's stream was damaged in transit and the client then went "
+                            f"silent; the connection was not ended within the timeout (closed at "
+                            f"{t_close}, limit {limit:.3f})", **ctx)
+            elif t_tcp is None or t_tcp > limit + 31.0:
+                res.violate(f"C15/socket-held-open/{site}",
+                            "the stream was ended but the TCP connection was still open 31 s later",
+                            **ctx)
+    elif disc is None:
         if not session:
             limit = t0 + T_HANDSHAKE + EPS
             if t_close is None or t_close > limit:
